@@ -87,6 +87,10 @@ func runORD(c *core.Ctx, rule, construct string, f *core.Func, err error) bool {
 		c.Unres(rule, construct, u.Pos, "the function left the comparison-only fragment the rule can evaluate: %s", u.What)
 		return false
 	}
+	if pe, ok := err.(*ordabs.Panic); ok {
+		c.Bad(rule, construct, pe.Pos, "on an input of the evaluated family the real code panics: %s", pe.What)
+		return false
+	}
 	if nd, ok := err.(*ordabs.NilDeref); ok {
 		c.Bad(rule, construct, nd.Pos, "on an input of the evaluated family the function dereferences a nil pointer: the real code panics")
 		return false
